@@ -315,7 +315,7 @@ def parts():
     from .. import h_sched_gen as G
 
     return [
-        Part("chains", check, strategy=case_st(), budget={"quick": 2500, "thorough": 60000}),
+        Part("chains", hs.with_epoch(check), strategy=hs.plus_epoch(case_st()), budget={"quick": 2500, "thorough": 60000}),
         Part("compositions", check_composition, strategy=G.dag_spec(), budget={"quick": 800, "thorough": 40000}, fuzz={"thorough": 5000}),
         Part("calendar_delays", check_calendar, strategy=calendar_case(), budget={"quick": 250, "thorough": 8000}, shrink_budget=150),
     ]
